@@ -121,6 +121,32 @@ func ruleSurvive(c *Ctx) {
 			}
 		}
 		c.Check("SURVIVE", short(f)+":closes-no-connection", c.P.Pos(f.Pos()), n == 0, "the serve loop itself closes connections (outside the per-connection goroutine)")
+		// "every accepted connection is handled by exactly one generation": between the accept and the handler nothing may
+		// consult the serve context, which the loop cancels when its listener closes — at the stop-old step of every reload
+		// (seed C11-u1: the per-connection goroutine returns early when ctx.Err() != nil, dropping a connection accepted just
+		// before the stop)
+		var fam []*ssa.Function
+		var addFam func(g *ssa.Function)
+		addFam = func(g *ssa.Function) {
+			fam = append(fam, g)
+			for _, a := range g.AnonFuncs {
+				addFam(a)
+			}
+		}
+		addFam(f)
+		bad := 0
+		for _, g := range fam {
+			for _, cl := range eng.Calls(g) {
+				switch n := eng.CalleeName(cl.Common()); n {
+				case "(context.Context).Done", "(context.Context).Err", "context.AfterFunc", "context.Cause":
+					bad++
+					c.CheckAt("SURVIVE", short(g)+":"+n, cl, false, "the serve loop consults the serve context between accepting a connection and handing it to the handler: the context is cancelled when the listener closes (stop-old step of a reload), so a connection accepted just before is dropped unhandled")
+				}
+			}
+		}
+		if bad == 0 {
+			c.Check("SURVIVE", short(f)+":accepted-connections-handled-regardless-of-cancellation", c.P.Pos(f.Pos()), true, fmt.Sprintf("%d functions of the serve loop examined, none reads the state of the serve context||", len(fam)))
+		}
 	}
 }
 
